@@ -108,10 +108,12 @@ def _locals_of(fn: ast.FunctionDef) -> set:
 
 
 class _Rename(ast.NodeTransformer):
-    def __init__(self, names: set, suffix: str):
-        self.names, self.suffix = names, suffix
+    def __init__(self, names: set, suffix: str, direct: Optional[Dict[str, str]] = None):
+        self.names, self.suffix, self.direct = names, suffix, direct or {}
 
     def visit_Name(self, node):
+        if node.id in self.direct:
+            return ast.copy_location(ast.Name(id=self.direct[node.id], ctx=node.ctx), node)
         if node.id in self.names:
             return ast.copy_location(ast.Name(id=node.id + self.suffix, ctx=node.ctx), node)
         return node
@@ -199,7 +201,12 @@ class Flattener:
                     raise _NotInlinable("missing keyword-only argument")
                 bound[p] = copy.deepcopy(d)
                 order.append(p)
-        return [ast.Assign(targets=[ast.Name(id=p + suffix, ctx=ast.Store())], value=bound[p]) for p in order]
+        # a parameter that the helper never rebinds and that receives a plain local name of the caller *is* that name
+        # (the caller's variable cannot change while the helper runs): no fresh binding, the body reads the caller's name
+        rebound = {n.id for n in ast.walk(fn) if isinstance(n, ast.Name) and isinstance(n.ctx, (ast.Store, ast.Del))}
+        direct = {p: bound[p].id for p in order if isinstance(bound[p], ast.Name) and p not in rebound and bound[p].id in self._scope_locals}
+        self._direct = direct
+        return [ast.Assign(targets=[ast.Name(id=p + suffix, ctx=ast.Store())], value=bound[p]) for p in order if p not in direct]
 
     def _expand(self, call: ast.Call, fn: ast.FunctionDef, mode: str, site: ast.stmt, depth: int, stack: tuple):
         """(statements, result name) for one inlined call; mode: 'return' | 'value' | 'drop'."""
@@ -208,8 +215,9 @@ class Flattener:
         binds = self._bind(fn, call, suffix)
         body = copy.deepcopy([st for st in fn.body
                               if not (isinstance(st, ast.Expr) and isinstance(st.value, ast.Constant) and isinstance(st.value.value, str))])
-        ren = _Rename(_locals_of(fn), suffix)
+        ren = _Rename(_locals_of(fn), suffix, self._direct)
         body = [ren.visit(st) for st in body]
+        self._scope_locals |= {n + suffix for n in _locals_of(fn)}
         result = None
         if mode == "return":
             if not _always_returns(body):
@@ -353,6 +361,7 @@ class Flattener:
 
     def function(self, fi) -> Optional[ast.FunctionDef]:
         self._caller_locals = _locals_of(fi.node)
+        self._scope_locals = set(self._caller_locals)
         before = len(self.inlined)
         body = self._stmts(list(fi.node.body), 0, (fi.name,))
         if len(self.inlined) == before:
